@@ -489,7 +489,7 @@ func suiteC15(c *ctx) {
 				rc.Reads = "k257"
 			}
 			rc.Src = SrcSpec{Kind: r.PickS([]string{"bufio", "plain", "bufio"}), Buf: r.Pick(bufSizes), Chunk: chunkStyles[r.Intn(len(chunkStyles))], Seed: r.U64(),
-				Term: r.PickS([]string{"err", "errdata"}), After: k}
+				Term: r.PickS([]string{"err", "errdata"}), After: k, Wrap: j%4 == 3}
 			if k == 0 {
 				rc.Src.Term = "err"
 			}
